@@ -156,7 +156,7 @@ def materialise_and_recover(prog, keys, prefixes, events, vbytes, vd, k, tag):
 
 def run(tier, seed):
     logging.disable(logging.CRITICAL)
-    ev = Evidence(PROP, tier, seed)
+    ev = Evidence(PROP, tier, seed, level="fault_enumeration")
     vd = Verdicts(PROP, ev)
     thorough = tier == "thorough"
     d = stage_spec("store/Durable.tla", "store/DurableTrace.tla", "store/DurableImpl.tla")
